@@ -117,6 +117,26 @@ def _hw_shapes(ctx, col, np):
             col.evaluations += 1; col.states += 1; col.transitions += 1; col.nontrivial += 1
             if got.shape != exp.shape or not np.array_equal(got, exp):
                 col.violation('C15/hw/nb_words', 'uint16 grouping mismatch axis %d k %d' % (ax, k), {'axis': ax, 'nb_words': k})
+    # memory layout is not part of the value of an array: Fortran-ordered arrays, transposed views and strided views of every width
+    for dt in ('uint8', 'uint16', 'uint32', 'uint64'):
+        bits = np.dtype(dt).itemsize * 8
+        base = ((np.arange(60, dtype='uint64') * 0x9E3779B97F4A7C15 + 0x1234567) % (2 ** bits if bits < 64 else 2 ** 64 - 1)).astype(dt).reshape(3, 4, 5)
+        views = {'fortran': np.asfortranarray(base), 'transposed': base.transpose(2, 0, 1), 'strided': base[:, ::2, ::3], '2d-T': base[0].T}
+        for vn, a in views.items():
+            exp_w = np.array([bin(int(v)).count('1') for v in a.reshape(-1)], dtype='int64').reshape(a.shape)
+            for k in (1, 2):
+                for ax in range(a.ndim):
+                    if a.shape[ax] < k: continue
+                    col.evaluations += 1; col.states += 1; col.transitions += 1; col.nontrivial += 1
+                    case = {'dtype': dt, 'view': vn, 'axis': ax, 'nb_words': k}
+                    try:
+                        got = scared.HammingWeight(nb_words=k, expected_dtype=dt)(a, axis=ax)
+                    except Exception as e:
+                        col.violation('C15/hw/layout/raised', 'HammingWeight(nb_words=%d, %s)(%s view, axis=%d): %s: %s' % (k, dt, vn, ax, type(e).__name__, e), case); continue
+                    g = a.shape[ax] // k
+                    exp = np.stack([np.take(exp_w, range(i * k, (i + 1) * k), axis=ax).sum(axis=ax) for i in range(g)], axis=ax)
+                    if got.shape != exp.shape or not np.array_equal(got, exp):
+                        col.violation('C15/hw/layout', 'HammingWeight(nb_words=%d, expected_dtype=%s) on a %s view (axis %d): %s' % (k, dt, vn, ax, 'shape %s expected %s' % (got.shape, exp.shape) if got.shape != exp.shape else 'values are not the popcounts of the elements at the same positions'), case)
     col.sample({'function': 'HammingWeight(nb_words=k)', 'shape': [2, 3, 4], 'axis': 1, 'nb_words': 2}, limit=1)
 
 
